@@ -18,7 +18,7 @@ import struct
 from .. import kafka_schema as KS
 from .. import wireshape as W
 from ..model import self_attr, unparse, walk_body_shallow
-from .util import call_name, call_recv, calls_in, kwarg, need, norm, where
+from .util import expand, holds_mod, const_value, call_name, call_recv, calls_in, kwarg, need, norm, where
 
 TECHNIQUE = "wire-grammar extraction by symbolic evaluation of encoders, compared with a hand-transcribed Kafka schema; " \
             "abstract version-dispatch evaluation; tri-state read discipline"
@@ -173,11 +173,11 @@ def run(ctx):
     rets = [n for n in cf.nodes if n.kind == "stmt" and isinstance(n.stmt, ast.Return)]
     good = ok_null and len(rets) == 2
     for n in rets:
-        v = norm(n.stmt.value)
-        if v == "_NULL_SHORT_STRING":
-            good = good and ("%s is None" % p, True) in fa[n.id]
+        v = norm(expand(prog, wsb, n.stmt.value))
+        if v == "struct.pack('>h', -1)":
+            good = good and holds_mod(prog, wsb, fa[n.id], "%s is None" % p, True)
         elif v == "struct.pack('>h', len(%s)) + %s" % (p, p):
-            good = good and ("%s is None" % p, False) in fa[n.id] and ("len(%s) > 32767" % p, False) in fa[n.id]
+            good = good and holds_mod(prog, wsb, fa[n.id], "%s is None" % p, False) and holds_mod(prog, wsb, fa[n.id], "len(%s) > 32767" % p, False)
         else:
             good = False
     r.check(good, "_util:write_short_bytes#arms", "short bytes writer does not map None to -1 and bytes to INT16 length + bytes with the 32767 limit",
@@ -189,11 +189,11 @@ def run(ctx):
     rets = [n for n in ci.nodes if n.kind == "stmt" and isinstance(n.stmt, ast.Return)]
     good = len(rets) == 2
     for n in rets:
-        v = norm(n.stmt.value)
+        v = norm(expand(prog, wis, n.stmt.value))
         if v == "struct.pack('>i', -1)":
-            good = good and ("%s is None" % p, True) in fi[n.id]
+            good = good and holds_mod(prog, wis, fi[n.id], "%s is None" % p, True)
         elif v == "struct.pack('>i', len(%s)) + %s" % (p, p):
-            good = good and ("%s is None" % p, False) in fi[n.id]
+            good = good and holds_mod(prog, wis, fi[n.id], "%s is None" % p, False)
         else:
             good = False
     r.check(good, "_util:write_int_string#arms", "bytes writer does not map None to -1 and bytes to INT32 length + bytes", where(wis, wis.node))
@@ -205,11 +205,11 @@ def run(ctx):
         rets = [n for n in c.nodes if n.kind == "stmt" and isinstance(n.stmt, ast.Return)]
         good = len(rets) == 2
         for n in rets:
-            v = norm(n.stmt.value)
-            if v == "_NULL_SHORT_STRING":
-                good = good and ("%s is None" % p, True) in fx[n.id]
+            v = norm(expand(prog, f, n.stmt.value))
+            if v == "struct.pack('>h', -1)":
+                good = good and holds_mod(prog, f, fx[n.id], "%s is None" % p, True)
             elif v == "write_short_bytes(%s.encode('%s'))" % (p, enc):
-                good = good and ("%s is None" % p, False) in fx[n.id]
+                good = good and holds_mod(prog, f, fx[n.id], "%s is None" % p, False)
             else:
                 good = False
         r.check(good, "_util:%s#arms" % nm, "text writer does not map None to null and text to %s bytes" % enc, where(f, f.node))
